@@ -54,7 +54,9 @@ type outcome struct {
 //                       used gas > Fee.Gas                                             (non-trivial)
 //   fee-unpayable       the handler succeeded, the fee could not be debited            (non-trivial)
 //   handler+fee-failed  both failed (the handler may have written before failing: not counted)
-//   vm-precheck         OLVM consensus pre-check error after Validate (WrongFee)
+//   vm-precheck         OLVM: passed Validate, then a consensus pre-check of the state transition failed
+//                       (e.g. intrinsic gas with the payload's access list) after buyGas debited the
+//                       sender object; Apply finalises that object into the session               (counted apart)
 func classifyFailure(kind string, r sim.TxRes) (class string, wrote bool) {
 	if r.Code == 0 {
 		return "", false
@@ -65,12 +67,13 @@ func classifyFailure(kind string, r sim.TxRes) (class string, wrote bool) {
 		Msg  string `json:"msg"`
 	}
 	_ = json.Unmarshal([]byte(r.Log), &e)
+	if kind == "OLVM" && r.GasUsed == 0 && r.GasWanted > 0 {
+		// passed Validate, rejected by the VM's consensus pre-checks (buyGas may already have debited the sender object)
+		return "vm-precheck", false
+	}
 	if feeIdx < 0 {
 		if r.GasUsed > 0 {
 			return "handler+fee-charged", true
-		}
-		if kind == "OLVM" && r.GasWanted > 0 {
-			return "vm-precheck", false
 		}
 		return "validate", false
 	}
@@ -308,6 +311,19 @@ func execute(h *run.H, tr *hist.Trace, draw func(w *hist.World, scoutR *sim.Repl
 			specB.Txs = append(specB.Txs, spec.Txs[k])
 			kept.Txs = append(kept.Txs, r)
 		}
+		// an OLVM transaction that failed in the VM pre-checks followed by an OLVM transaction that executed in the same block
+		preAt := -1
+		for k, r := range resA.Txs {
+			if k >= len(step.Kinds) || step.Kinds[k] != "OLVM" {
+				continue
+			}
+			if c, _ := classifyFailure("OLVM", r); c == "vm-precheck" && preAt < 0 {
+				preAt = k
+			} else if r.Code == 0 && preAt >= 0 {
+				st.feats["olvm-pair:vm-precheck-then-executed-in-one-block"]++
+				break
+			}
+		}
 		bB := cB.MakeBlock(specB)
 		resB := b.RunBlock(bB)
 		if b.Panicked {
@@ -434,7 +450,7 @@ func (e *engineer) engineerInto(sc *sim.Replica, spec sim.BlockSpec, txs []txgen
 	n := 1 + e.u.N(2, "eng-n")
 	for j := 0; j < n; j++ {
 		at := e.u.N(len(txs)+1, "eng-at")
-		switch e.u.N(10, "eng-shape") {
+		switch e.u.N(11, "eng-shape") {
 		case 0, 1, 2, 3, 4: // Fee.Gas relative to the measured use: one below (fails in the fee step), exact (boundary, succeeds)
 			kind, mk := e.baseTx()
 			delta := []int64{-1, -1, -1, 0, -20}[e.u.N(5, "eng-delta")]
@@ -477,6 +493,35 @@ func (e *engineer) engineerInto(sc *sim.Replica, spec sim.BlockSpec, txs []txgen
 			t.Note = fmt.Sprintf("eng:%s:%s:used=%d", label, kind, used)
 			txs = insert(txs, at, t)
 			e.labels["eng:"+label]++
+		case 9: // OLVM: access list in the payload, Fee.Gas between the intrinsic gas without and with the list; a valid OLVM transfer after it
+			if w.P.Frankenstein == 0 || w.C.Height+1 < w.P.Frankenstein || len(w.G.U.Eth) < 2 {
+				continue
+			}
+			i1 := e.u.N(len(w.G.U.Eth), "olvm-e1")
+			i2 := (i1 + 1 + e.u.N(len(w.G.U.Eth)-1, "olvm-e2")) % len(w.G.U.Eth)
+			e1, e2 := w.G.U.Eth[i1], w.G.U.Eth[i2]
+			to := ethcmn.BytesToAddress(w.G.U.Users[e.u.N(len(w.G.U.Users), "olvm-to")].Addr)
+			nkeys := e.u.N(3, "olvm-keys")
+			al := ethtypes.AccessList{{Address: to}}
+			for k := 0; k < nkeys; k++ {
+				al[0].StorageKeys = append(al[0].StorageKeys, ethcmn.BigToHash(big.NewInt(int64(k))))
+			}
+			with := int64(21000 + 2400 + 1900*nkeys)
+			gas := int64(21000) + int64(e.u.N(int(with-21000), "olvm-gas")) // in [21000, with)
+			price := big.NewInt(1000000000)
+			n1 := w.OlvmNext[e1.Name]
+			t1 := txgen.OLVM(e1, txgen.OLVMArgs{ChainID: w.P.ChainID, Nonce: n1, To: &to, Value: big.NewInt(int64(e.u.Range(0, 1000, "olvm-v1"))), Fee: txgen.Fee{Price: price, Cur: "OLT", Gas: gas}})
+			t1 = withAccessList(t1, al)
+			t1.Tags = []string{"engineered", "olvm-accesslist-gas-between-intrinsics"}
+			t1.Note = fmt.Sprintf("olvm:%s:%d", e1.Name, n1)
+			n2 := w.OlvmNext[e2.Name]
+			t2 := txgen.OLVM(e2, txgen.OLVMArgs{ChainID: w.P.ChainID, Nonce: n2, To: &to, Value: big.NewInt(int64(e.u.Range(1, 1000, "olvm-v2"))), Fee: txgen.Fee{Price: price, Cur: "OLT", Gas: 21000}})
+			t2.Tags = []string{"engineered", "olvm-after-precheck-failure"}
+			t2.Note = fmt.Sprintf("olvm:%s:%d", e2.Name, n2)
+			txs = insert(txs, at, t1)
+			at2 := at + 1 + e.u.N(len(txs)-at, "olvm-at2")
+			txs = insert(txs, at2, t2)
+			e.labels["eng:olvm-precheck-pair"]++
 		case 5, 6: // fund a fresh account that no generator knows
 			f := &fresh{u: sim.NewEdUser(fmt.Sprintf("fresh%d", len(e.fresh)), fmt.Sprintf("%s/c06-fresh/%d", w.P.Seed, len(e.fresh)))}
 			f.amount = new(big.Int).Mul(big.NewInt(int64(e.u.Range(2, 9, "fresh-amt"))), new(big.Int).Exp(big.NewInt(10), big.NewInt(16), nil))
@@ -487,6 +532,8 @@ func (e *engineer) engineerInto(sc *sim.Replica, spec sim.BlockSpec, txs []txgen
 			e.fresh = append(e.fresh, f)
 			txs = insert(txs, at, t)
 			e.labels["eng:fund-fresh"]++
+		case 10: // same as 9 (weight)
+			fallthrough
 		default: // a fresh account spends balance - fee + delta: the payload is covered, the fee is short by delta
 			var f *fresh
 			for _, x := range e.fresh {
